@@ -167,6 +167,15 @@ def execute(trace: dict) -> Result:
     topo = cfg["topology"]
     refs = dyn.element_refs(topo)
     values = dyn.gen_values(cfg["vals"], uspec, refs, edge=cfg.get("edge", False))
+    if cfg.get("empty_merge"):
+        # an empty junction: no vehicles in the last segment of any link entering a merge node
+        into = {}
+        for u, l, v in topo["links"]:
+            into.setdefault(v, []).append(l)
+        for v, ls in into.items():
+            if len(ls) >= 2:
+                for l in ls:
+                    values[l]["rho"][-1] = 0.0
     opts = cfg["opts"]
     zero_d = cfg["zero_d"]
     canon_ops = dyn.canonical_ops(topo)
@@ -336,6 +345,8 @@ def gen_rename(rng, uspec: dict, refs_all: list):
 def generate(prop: str, run_seed: int, tier: str = "quick") -> dict:
     rng = core.rng_of(run_seed)
     U = dyn.gen_dyn_universe(rng, ideal_origins=False, big=rng.random() < 0.5)
+    if rng.random() < 0.15:
+        U["param_arrays"] = rng.choice(["0d", "1d"])  # caller-owned NumPy arrays as parameters (NumPy runs only)
     best = None
     for _ in range(12):  # prefer topologies with bifurcations (the share clause lives there)
         topo = dyn.gen_dyn_topology(rng, U)
@@ -407,7 +418,7 @@ def generate(prop: str, run_seed: int, tier: str = "quick") -> dict:
                         sc[l] = f
             var["scale"] = sc
         also = []
-        if rng.random() < (0.25 if tier == "quick" else 0.5):
+        if not U.get("param_arrays") and rng.random() < (0.25 if tier == "quick" else 0.5):
             also.append(rng.choice(["sx", "mx"]))
         var["also"] = also
         var["engine_made"] = bool(also) and rng.random() < 0.6
@@ -417,6 +428,7 @@ def generate(prop: str, run_seed: int, tier: str = "quick") -> dict:
             var["copy"] = rng.choice(["deepcopy", "pickle"])
         variants.append(var)
     cfg = {"topology": topo, "vals": rng.getrandbits(32), "opts": opts, "edge": rng.random() < 0.08,
+           "empty_merge": rng.random() < 0.06,
            "zero_d": True if (dyn.has_merging_ramp(topo, U) and "delta" in opts) else rng.random() < 0.3}
     return {"prop": prop, "run_seed": run_seed, "universe": U, "cfg": cfg, "ops": variants}
 
